@@ -17,17 +17,30 @@ using g_short_t = int32_t;
 using g_int_t = int64_t;
 using g_long_t = int64_t;
 using g_ulong_t = uint64_t;
-static const char* kAbi = "wide";
+static const char* kAbi0 = "wide";
 #else
 using AbiT = mb::abi_lp32;
 using g_short_t = int16_t;
 using g_int_t = int32_t;
 using g_long_t = int32_t;
 using g_ulong_t = uint32_t;
-static const char* kAbi = "lp32";
+static const char* kAbi0 = "lp32";
 #endif
+#ifdef C08_PTR64
+// guest pointers as wide as the host's, but still base-relative: equal width is not equal representation
+using g_ptr_t = uint64_t;
+using Cfg = mb::cfg<uint64_t, AbiT, mb::MASK, 2, false, 16>;
+#  undef C08_KABI
+#  define C08_KABI "lp32p64"
+#else
 using g_ptr_t = uint16_t;
 using Cfg = mb::cfg<uint16_t, AbiT, mb::MASK, 2>;
+#endif
+#ifdef C08_KABI
+static const char* kAbi = C08_KABI;
+#else
+static const char* kAbi = kAbi0;
+#endif
 using SB = mb::mbox<Cfg>;
 using sbx_t = rlbox::rlbox_sandbox<SB>;
 template<class T>
